@@ -1,0 +1,11 @@
+//go:build verif
+// +build verif
+
+package utility
+
+// VerifDisableNTP marks the NTP offset as initialised so that GetTime never
+// tries to reach a time server (verification harnesses run offline).
+func VerifDisableNTP() {
+	ntpInitFlag = true
+	ntpInit.Do(func() {})
+}
